@@ -21,7 +21,7 @@ def shards(tier, seed):
     out = []
     for L in T.LETTERS:
         out.append({"name": "formula-" + L, "kind": "formula", "letter": L, "weight": 5,
-                    "roots": "pure2" if tier == "quick" else "all3+pure6"})
+                    "roots": "pure3" if tier == "quick" else "all3+pure6"})
     out.append({"name": "tables", "kind": "tables", "weight": 1})
     out.append({"name": "aliases", "kind": "aliases", "weight": 4,
                 "roots": ["C", "Bb", "F#", "E", "Abb", "G##", "D"] if tier == "quick" else list(T.pure_names(2))})
@@ -51,8 +51,8 @@ def live_keys(ctx):
 
 def roots_for(spec, letter):
     i = T.LETTERS.index(letter)
-    if spec == "pure2":
-        return [T.spell(i, n) for n in range(-2, 3)]
+    if spec == "pure3":
+        return [T.spell(i, n) for n in range(-3, 4)]
     r = [letter + a for a in T.acc_strings(3)]
     r += [T.spell(i, n) for n in range(-6, 7) if abs(n) > 3]
     return r
@@ -151,7 +151,8 @@ def run(shard, ctx):
         roots = ["C", "F#", "Bb", "Ebb", "G##"]
         for sh in ks:
             for r in roots:
-                for b in basses:
+                own = chords.from_shorthand(r + sh)
+                for b in basses + [r, own[-1], own[len(own) // 2]]:      # also the root and notes of the chord as bass
                     text = r + sh + "/" + b
                     st, c = ctx.call(chords.from_shorthand, text)
                     ok = st == "ok" and isinstance(c, list) and len(c) >= 1 and c[0] == b and CT.matches(r, sh, c[1:])
